@@ -168,6 +168,16 @@ func propC13(c *Check) {
 					rmCalls = append(rmCalls, s.Call)
 				}
 			}
+			// the entry may be removed by a helper that is handed the record: on each of its success paths it
+			// calls PowerRanking.Remove with the record's (unchanged) power
+			rmRe := regexp.MustCompile(`^PowerRanking\.Remove\(collections\.Join\(` + regexp.QuoteMeta(r.E(a)) + `\.Power, `)
+			for _, ci := range callsIn(f) {
+				for _, arg := range ci.Common().Args {
+					if arg == ssa.Value(a) && p.helperAlwaysCalls(f, ci, rmRe) {
+						rmCalls = append(rmCalls, ci)
+					}
+				}
+			}
 			check := func(rule, what string, target ssa.Instruction) {
 				ld, _ := vf.loaded.At(target, a)
 				if ld&ranked == 0 {
@@ -352,6 +362,84 @@ func propC13(c *Check) {
 				}
 			}
 		}
+		// every reported change is mirrored in the module's own record of the set before the next one / the end:
+		// a removal (update with power 0) by ValidatorSet.Remove, an addition or power change by ValidatorSet.Set
+		{
+			nMirror := 0
+			// the marker of a reported update: the store of its Power, or — for an update literal that leaves the power
+			// at its zero value (a removal) — the store of its PubKey
+			type upd struct {
+				st      *ssa.Store
+				removal bool
+			}
+			var upds []upd
+			reb := p.R(eb)
+			for _, b := range eb.Blocks {
+				for _, in := range b.Instrs {
+					al, ok := in.(*ssa.Alloc)
+					if !ok || namedOf(al.Type()) == nil || namedOf(al.Type()).Obj().Name() != "ValidatorUpdate" {
+						continue
+					}
+					var pw, pk *ssa.Store
+					for _, fs := range reb.fieldStores[al] {
+						if fa, ok := fs.Addr.(*ssa.FieldAddr); ok && fa.X == ssa.Value(al) {
+							switch fieldName(fa.X.Type(), fa.Field) {
+							case "Power":
+								pw = fs
+							case "PubKey":
+								pk = fs
+							}
+						}
+					}
+					switch {
+					case pw != nil:
+						upds = append(upds, upd{pw, isConstIntVal(pw.Val, 0)})
+					case pk != nil:
+						upds = append(upds, upd{pk, true})
+					}
+				}
+			}
+			{
+				for _, u := range upds {
+					st := u.st
+					want, what := `^ValidatorSet\.Set\(`, "addition/power change"
+					if u.removal {
+						want, what = `^ValidatorSet\.Remove\(`, "removal"
+					}
+					re := regexp.MustCompile(want)
+					var mirror []ssa.Instruction
+					for _, ci := range callsIn(eb) {
+						if re.MatchString(p.CallStr(ci)) || p.helperAlwaysCalls(eb, ci, re) {
+							mirror = append(mirror, ci)
+						}
+					}
+					nMirror++
+					succ := successTargets(eb)
+					cons := fmt.Sprintf("update-mirrored#%d (%s) @ %s", nMirror, what, FuncKey(eb))
+					isM := instrSet(mirror)
+					isU := func(x ssa.Instruction) bool { return x == ssa.Instruction(st) }
+					// the report and its mirror come in pairs, in either order, before the next report / the end:
+					// (report … mirror) or (mirror … report)
+					after, _ := (&PathSearch{Fn: eb, From: st, AvoidInstr: isM, IsTarget: func(x ssa.Instruction) bool { return succ(x) || isU(x) }}).Find()
+					before, _ := (&PathSearch{Fn: eb, AvoidInstr: isM, IsTarget: isU}).Find()
+					var again ssa.Instruction
+					if before == nil {
+						// mirror-then-report: after a report, the next report needs a new mirror
+						again, _ = (&PathSearch{Fn: eb, From: st, AvoidInstr: isM, IsTarget: isU}).Find()
+					}
+					switch {
+					case after == nil:
+						c.Held("R4", cons, p.InstrPos(st), "followed by "+strings.Trim(want, `^\\(`)+" before the next update / the end")
+					case before == nil && again == nil:
+						c.Held("R4", cons, p.InstrPos(st), "preceded by "+strings.Trim(want, `^\\(`)+", once per reported update")
+					default:
+						_, path := (&PathSearch{Fn: eb, From: st, AvoidInstr: isM, IsTarget: func(x ssa.Instruction) bool { return succ(x) || isU(x) }}).Find()
+						c.Violated("R4", cons, p.InstrPos(st), "a "+what+" is reported to the consensus engine but the module's own record of the validator set is not updated on some path: the next block reports it again (removal of a non-member / duplicate)", p.describePath(path)...)
+					}
+				}
+			}
+			c.Floor("R4", "validator updates mirrored in ValidatorSet", nMirror, 2)
+		}
 		c.RequireFact(eb, "R4", "walk-bounded-by-MaxValidators", `^\(φ\{.*\} < Params\.Get\(\)#0\.MaxValidators\)$`, instrSet(callInstrs(p.FindCalls(eb, `^KeySetIterator\.Key\(|^Iterator\.Key\(`))), "ranking walk step")
 		// unranked status in the walk aborts; removal loop demotes Active→Pending (typestate relation in C14)
 	}
@@ -369,7 +457,7 @@ func propC14(c *Check) {
 	p := c.p
 	c.Rule("R1", "validator status typestate over every function of the locking module: new→Pending (Inactive when the account exists); Downgrade→Pending only after the jail time and with all thresholds met; Active→Downgrade only under the missed-blocks guard; {Active,Pending,Downgrade}→Inactive; anything but Tombstoned→Tombstoned; Pending↔Active in the end blocker; no write from Tombstoned, from Inactive only →Tombstoned")
 	c.Rule("R2", "downtime path: only Active validators are counted; the →Downgrade write comes with Power=0, JailedUntil = BlockTime + DowntimeJailDuration and the downtime slash; the signing window is reset when a validator (re)joins the active set or is jailed, so one offence is punished once")
-	c.Rule("R3", "evidence filter: evidence is ignored only when BOTH age limits are exceeded; a tombstoned validator is never written again")
+	c.Rule("R3", "evidence filter: evidence is ignored only when BOTH age limits are exceeded, and evidence of any kind that exceeds both IS ignored (the accused validator is loaded only on a path that passed a not-older edge of one of the two age tests); a tombstoned validator is never written again")
 	c.Rule("R4", "locks aimed at Tombstoned/Inactive validators change neither power nor ranking")
 	vfs, en := p.validatorFns()
 	allowed := map[[2]string]bool{
@@ -419,7 +507,19 @@ func propC14(c *Check) {
 			switch {
 			case w.To == en.Set("Pending") && w.From&en.Set("Downgrade") != 0:
 				c.RequireFact(f, "R1", "unjail-after-jail-time", `^Time\.After\(Context\.BlockTime\(\), .*\.JailedUntil\)$`, tgt, "unjail")
-				c.RequireFact(f, "R1", "unjail-meets-thresholds", `^Coins\.IsAllGTE\(.*, Threshold\.Get\(\)#0\.List\)$`, tgt, "unjail")
+				allGTE := `^Coins\.IsAllGTE\(.*, Threshold\.Get\(\)#0\.List\)$`
+				if len(p.MatchEdges(f, regexp.MustCompile(allGTE))) > 0 {
+					c.RequireFact(f, "R1", "unjail-meets-thresholds", allGTE, tgt, "unjail")
+				} else {
+					// the same test spelled as a loop: every threshold entry is examined (the loop runs to its end) and
+					// each iteration passes `locked(denom) >= required` before the next one
+					li := "Threshold.Get()#0.List[φ{(1 + @)|0}]"
+					exit := "(len(Threshold.Get()#0.List) <= φ{(1 + @)|0})"
+					c.RequireFact(f, "R1", "unjail-meets-thresholds", lit(exit), tgt, "unjail")
+					held := `Coins\.AmountOf\(.*Locking.*, ` + regexp.QuoteMeta(li) + `\.Denom\)`
+					req := regexp.QuoteMeta(li) + `\.Amount`
+					c.eachIterationEstablishes(f, "R1", "unjail-meets-each-threshold", exit, `^!Int\.LT\(`+held+`, `+req+`\)$|^Int\.GTE\(`+held+`, `+req+`\)$|^!Int\.GT\(`+req+`, `+held+`\)$|^Int\.LTE\(`+req+`, `+held+`\)$`)
+				}
 			case w.To == en.Set("Downgrade"):
 				// the counter compared is the stored counter, incremented or not by this block — never a value that
 				// can come from the window roll-over reset (comparing after the reset forgives a full window of misses)
@@ -592,6 +692,18 @@ func propC14(c *Check) {
 			c.RequireFact(he, "R3", "ignored-only-if-older-than-blocks", `^\(.*Evidence\.MaxAgeNumBlocks < \(Context\.BlockHeight\(\) - Evidence\.Height\(\$2\)\)\)$`, instrSet(early), "ignoring evidence")
 		}
 	}
+	// the converse: evidence older than both limits IS ignored, whatever its kind — every path to the record load
+	// (everything that slashes and tombstones comes after it) passes a "not older" edge of one of the two age tests
+	if len(gets) == 1 {
+		notOld := `^\(Time\.Sub\(Context\.BlockTime\(\), Evidence\.Time\(\$2\)\) <= .*Evidence\.MaxAgeDuration\)$|^\(\(Context\.BlockHeight\(\) - Evidence\.Height\(\$2\)\) <= .*Evidence\.MaxAgeNumBlocks\)$`
+		if len(p.MatchEdges(he, regexp.MustCompile(notOld))) == 0 {
+			// no age test at all before the load: evidence is never ignored for its age — older evidence is punished too
+			c.Violated("R3", "expired-evidence-ignored @ "+FuncKey(he), p.Pos(he.Pos()), "no comparison of the evidence age with MaxAgeDuration / MaxAgeNumBlocks found reason=not-established")
+		} else {
+			// (no age limits configured: nothing can be older than them)
+			c.RequireFact(he, "R3", "expired-evidence-ignored", notOld+`|^\(Context\.ConsensusParams\(\)\.Evidence == nil\)$`, instrSet([]ssa.Instruction{gets[0]}), "loading the accused validator (then slashing and tombstoning it)")
+		}
+	}
 	// R4 lock on Tombstoned/Inactive
 	for _, vf := range vfs {
 		if FuncKey(vf.fn) != "x/locking/keeper.Keeper.lock" {
@@ -644,7 +756,8 @@ func propC15(c *Check) {
 			qset = &ss
 		}
 	}
-	if len(exitAdd) != 1 || len(normAdd) != 1 || qset == nil {
+	// the normal delay may be computed at several places (e.g. one per branch of a switch): all render alike
+	if len(exitAdd) != 1 || len(normAdd) < 1 || qset == nil {
 		c.Violated("R1", "maturity-computation @ "+FuncKey(un), p.Pos(un.Pos()), "BlockTime+ExitingDuration / BlockTime+UnlockDuration / UnlockQueue.Set not found reason=not-established")
 		return
 	}
@@ -665,7 +778,13 @@ func propC15(c *Check) {
 	var exitIf *ssa.If
 	for _, b := range un.Blocks {
 		if iff, ok := b.Instrs[len(b.Instrs)-1].(*ssa.If); ok {
-			if b.Succs[0].Dominates(exitAdd[0].Block()) && !b.Succs[0].Dominates(normAdd[0].Block()) {
+			domNorm := false
+			for _, na := range normAdd {
+				if b.Succs[0].Dominates(na.Block()) {
+					domNorm = true
+				}
+			}
+			if b.Succs[0].Dominates(exitAdd[0].Block()) && !domNorm {
 				if ph, ok := iff.Cond.(*ssa.Phi); ok && (exitIf == nil || b.Dominates(exitIf.Block()) == false) {
 					exitCond, exitIf = ph, iff
 				}
